@@ -119,7 +119,8 @@ CHECKS = {
          "is never overwritten. Runtime level (MIR of compio-runtime's Submit future, Proactor summarised by the contract above): the "
          "operation is submitted exactly once on the first poll; while pending the future keeps exactly the key the driver returned; "
          "a cancel token in the context is registered with that key once; dropping the future while an operation is submitted calls "
-         "Proactor::cancel exactly once with the current key, and never before submission or after completion.",
+         "Proactor::cancel exactly once with the current key, and never before submission or after completion; the multishot stream "
+         "SubmitMulti yields every intermediate result once and in order, ends with the final result, and cancels its key when dropped early.",
     design_ref="DESIGN.md §1 C01/C02/C05",
     note="Promptness (the OS actually interrupting the operation) and the runtime-level routes (future drop, timeout combinators in "
          "compio-runtime) are outside; same conditions as C01."),
